@@ -3,17 +3,104 @@
    Model: Model/Sample.v (faithful to xsdata/codegen/mappers/{element,mixins,dict}.py and
    ClassUtils.flatten / reduce_classes / reduce_attributes / sorted_attrs / merge_attributes / filter_types);
    the statements are the boolean predicates of Model/SampleCorr.v, which the check also evaluates on the
-   REAL reduce_classes output of every generated sample set. *)
+   REAL reduce_classes output and per document of every generated sample set. *)
 From Coq Require Import NArith List Bool.
-From XV Require Import Base.Str Model.Sample Model.SampleCorr Proofs.SampleFit.
+From XV Require Import Base.Str Model.Sample Model.SampleCorr Model.ConvFactory
+  Proofs.SampleBuild Proofs.SampleFit Proofs.SampleTypes Proofs.SampleAccept Proofs.SampleGuarded.
 Import ListNotations.
 
 (* 1. samples_fit + attrs_fit: for EVERY set of sample trees and EVERY behaviour of the converter tests, every
       node of every sample that gets a class (the root and every element with attributes or children) finds,
       in the merged class of its name, a slot for each child element (a list slot when the child name occurs
       more than once in the node: capacity >= occurrences), for each attribute and for its text; every part of
-      the merged class that the node lacks has min_occurs = 0; text between children needs and finds a mixed
-      class.  No side condition. *)
+      the merged class that the node lacks has min_occurs = 0; text between children finds a mixed class.
+      No side condition. *)
 Theorem C13_samples_fit : forall cv (S : list tree), forallb (tree_fits (classes_of_xml cv S)) S = true.
 Proof. exact samples_fit. Qed.
 Print Assumptions C13_samples_fit.
+
+(* 2. the type inferred for every attribute value, leaf text, text content and complex child of every sample
+      node is among the types of the merged attr — unless it is xs:anySimpleType (empty value) / xs:anyType /
+      xs:error, which ClassUtils.filter_types may drop.  No side condition. *)
+Theorem C13_inferred_types_kept : forall cv (S : list tree), forallb (tree_types_ok cv (classes_of_xml cv S)) S = true.
+Proof. exact types_kept. Qed.
+Print Assumptions C13_inferred_types_kept.
+
+(* 3. inferred_type_accepts: hence no sample value can end in a ConverterWarning.  Converter interface of
+      property C05 (`conv`, ConverterFactory.deserialize = deserialize_gen over sort_types); hypotheses = what
+      RawDocumentMapper.build_attr_type relies on: a value that passed converter.test(v, [tp], strict=True) is
+      accepted by tp's converter, and str accepts every text.  For every value v whose strict tests are known
+      (sc_row cv v <> None), the merged field it is bound to has a candidate type list on which
+      ConverterFactory.deserialize succeeds (via C05's deserialize_sorted_none). *)
+Theorem C13_inferred_type_accepts :
+  forall (V : Type) (cv : sconv) (conv : pytype -> str -> option V) (py_of : str -> pytype),
+  (forall v row tp, sc_row cv v = Some row -> first_true (map fst Gen.SampleTables.explicit_type_datatype) row = Some tp ->
+                    conv (py_of (from_explicit_type tp)) v <> None) ->
+  (forall v, conv (py_of DT_STRING) v <> None) ->
+  forall (S : list tree) t, In t S ->
+    Forall_nodes (node_values_accepted V cv conv py_of (classes_of_xml cv S)) (root_ns t) t.
+Proof. exact inferred_type_accepts. Qed.
+Print Assumptions C13_inferred_type_accepts.
+
+(* 4. nillable: "the class of a node that says xsi:nil=true is nillable" is FALSE of the faithful model
+      (reduce_classes copies nillable from group[0]; ClassUtils.flatten lists inner classes last to first) ... *)
+Theorem C13_nil_fit_refuted : exists cv S, forallb (tree_nil_ok (classes_of_xml cv S)) S = false.
+Proof. exact nil_fit_refuted. Qed.
+Print Assumptions C13_nil_fit_refuted.
+
+(*    ... and true when all occurrences of an element name agree on xsi:nil (clause g_nil) *)
+Theorem C13_nil_fit : forall cv (S : list tree),
+  g_nil_uniform cv S = true -> forallb (tree_nil_ok (classes_of_xml cv S)) S = true.
+Proof. exact nil_fit. Qed.
+Print Assumptions C13_nil_fit.
+
+(* 5. namespace: "the merged class has the class namespace build_class computes for the node" (None for an
+      unqualified element whose ancestors are all unqualified, "" below a qualified ancestor) is FALSE ... *)
+Theorem C13_ns_fit_refuted : exists cv S, forallb (doc_ns_ok (classes_of_xml cv S)) S = false.
+Proof. exact ns_fit_refuted. Qed.
+Print Assumptions C13_ns_fit_refuted.
+
+(*    ... and true when all occurrences of an element name have the same class namespace (clause g_ns) *)
+Theorem C13_ns_fit : forall cv (S : list tree),
+  g_ns_uniform cv S = true -> forallb (doc_ns_ok (classes_of_xml cv S)) S = true.
+Proof. exact ns_fit. Qed.
+Print Assumptions C13_ns_fit.
+
+Example C13_guards_nonvacuous :
+  g_nil_uniform no_tests w_guard_ok = true /\ g_ns_uniform no_tests w_guard_ok = true
+  /\ existsb (fun t => existsb (fun k => match xsi_nil_of k with Some true => true | _ => false end) (t_kids t)) w_guard_ok = true.
+Proof. exact guards_nonvacuous. Qed.
+Print Assumptions C13_guards_nonvacuous.
+
+(* 6. the remaining clauses of `regular` (evaluated per document by the check, no unbounded theorem under
+      them): each is a statement about the merged classes that the faithful model falsifies; every witness
+      also fails on the real code. *)
+Theorem C13_kind_empty_refuted : exists cv S, forallb (doc_kind_empty_ok (raw_of cv S)) S = false.
+Proof. exact kind_empty_refuted. Qed.
+Print Assumptions C13_kind_empty_refuted.
+
+Theorem C13_kind_leaf_refuted : exists cv S, forallb (doc_kind_leaf_ok (raw_of cv S)) S = false.
+Proof. exact kind_leaf_refuted. Qed.
+Print Assumptions C13_kind_leaf_refuted.
+
+Theorem C13_nil_present_refuted : exists cv S, forallb (doc_nil_present_ok (classes_of_xml cv S)) S = false.
+Proof. exact nil_present_refuted. Qed.
+Print Assumptions C13_nil_present_refuted.
+
+Theorem C13_order_kept_refuted : exists cv S, forallb (doc_order_ok (classes_of_xml cv S)) S = false.
+Proof. exact order_kept_refuted. Qed.
+Print Assumptions C13_order_kept_refuted.
+
+Theorem C13_values_exact_refuted :
+  exists tbl vt S, forallb (g_values_exact vt (classes_of_xml (sconv_of_table tbl) S)) S = false.
+Proof. exact values_exact_refuted. Qed.
+Print Assumptions C13_values_exact_refuted.
+
+Example C13_regular_nonvacuous :
+  let cs := classes_of_xml no_tests w_regular in
+  forallb (doc_kind_empty_ok (raw_of no_tests w_regular)) w_regular
+  && forallb (doc_kind_leaf_ok (raw_of no_tests w_regular)) w_regular
+  && forallb (doc_nil_present_ok cs) w_regular && forallb (doc_order_ok cs) w_regular
+  && forallb (doc_ns_ok cs) w_regular && forallb (tree_nil_ok cs) w_regular = true.
+Proof. exact regular_nonvacuous. Qed.
+Print Assumptions C13_regular_nonvacuous.
